@@ -1,5 +1,7 @@
 """Shared by the Numscript properties (C01 C03 C08 C12): differential Spec-vs-implementation and property oracles."""
 import collections
+import fractions
+import re
 from vlib.common import *
 
 TRUSTED = [
@@ -11,7 +13,7 @@ TRUSTED = [
 
 
 def strip(o):
-    return {k: v for k, v in o.items() if k not in ("stage", "unstable")}
+    return {k: v for k, v in o.items() if k not in ("stage", "unstable", "rebind", "remembers")}
 
 
 def run_numscript(ctx, n):
@@ -199,6 +201,30 @@ def distribution(inputs, impl):
         for f in features(i):
             feats[f] += 1
     return {"outcomes": dict(cls), "constructs": dict(feats)}
+
+
+def rebind_stats(inputs, impl):
+    """how much of the stream exercises "a compiled program does not remember a run" (third run on another variable map vs a fresh
+    compilation) and how often a monetary literal takes its asset from a variable"""
+    st = collections.Counter()
+    for i in inputs:
+        o = impl.get(i["id"]) or {}
+        lit = re.search(r"\[\$\w+ [0-9]", i.get("text") or "") is not None
+        st["programs"] += 1
+        st["monetary_literal_on_an_asset_variable"] += 1 if lit else 0
+        st["monetary_literal_on_an_asset_variable_and_run_ok"] += 1 if lit and "postings" in o else 0
+        for ctxt, pat in (("in_a_send_amount", r"send \[\$\w+ [0-9]"), ("in_a_cap", r"max \[\$\w+ [0-9]"), ("in_an_overdraft", r"up to \[\$\w+ [0-9]"),
+                          ("in_a_metadata_value", r"meta\([^\n]*\[\$\w+ [0-9]"), ("in_a_save", r"save \[\$\w+ [0-9]")):
+            st["asset_variable_literal_" + ctxt] += 1 if re.search(pat, i.get("text") or "") else 0
+        r = o.get("rebind")
+        if r is None:
+            continue
+        st["with_second_variable_map"] += 1
+        st["second_map_run_ok"] += 1 if r.get("ok") else 0
+        st["second_map_outcome_differs_from_first"] += 1 if r.get("varies") else 0
+        st["second_map_run_ok_and_asset_variable_literal"] += 1 if r.get("ok") and r.get("varies") and lit else 0
+        st["remembers"] += 1 if "remembers" in o else 0
+    return dict(st)
 
 
 # ---- model A2 (bytecode level): second correspondence stream on the SAME inputs (area "nsbytecode")
@@ -400,6 +426,173 @@ def ordered_sources_verdict(inp, out, stats=None):
         return ("sources are not drained in order: giving all they can front to back yields %s, the postings say %s (first difference at "
                 "contribution %d)" % (want, got, k))
     return None
+
+
+# ---- C03, portion clause: "each share is the floored fraction the statement says, the leftover units go one each to the earliest
+# entries", evaluated on the postings alone (Python integers and Fractions; percentages read from the TEXT of the script / of the
+# variable / of the stored metadata — no helper of the code under test, no Lean model)
+
+_PCT = re.compile(r"([0-9]+)(?:[.]([0-9]+))?%")
+_FRAC = re.compile(r"([0-9]+)\s?/\s?([0-9]+)")
+
+
+def portion_from_text(t):
+    """`12.5%` = 125/1000, `2.05%` = 205/10000, `3/8`; None when the text is no portion or lies outside [0, 1]"""
+    if not isinstance(t, str):
+        return None
+    m = _PCT.fullmatch(t)
+    if m:
+        frac = m.group(2) or ""
+        v = fractions.Fraction(int(m.group(1) + frac), 100 * 10 ** len(frac))     # the digits as written: zeros after the point count
+    else:
+        m = _FRAC.fullmatch(t)
+        if not m or int(m.group(2)) == 0:
+            return None
+        v = fractions.Fraction(int(m.group(1)), int(m.group(2)))
+    return v if 0 <= v <= 1 else None
+
+
+def expected_shares(n, ps):
+    """ps: Fractions, None = `remaining`.  None when such a list is not accepted (two `remaining`, total above 1, total below 1
+    without `remaining`); else the shares of n: floor(n * p) each, then one more unit to the earliest entries until n is reached"""
+    known = [p for p in ps if p is not None]
+    tot = sum(known, fractions.Fraction(0))
+    if len(ps) - len(known) > 1 or tot > 1 or (len(known) == len(ps) and tot != 1) or not ps:
+        return None
+    full = [p if p is not None else 1 - tot for p in ps]
+    fl = [(n * p.numerator) // p.denominator for p in full]
+    left = n - sum(fl)
+    if not 0 <= left <= len(fl):
+        return None
+    return [x + (1 if i < left else 0) for i, x in enumerate(fl)], full
+
+
+def single_account(s):
+    """the source expression of a source that is one account (plain, with an overdraft, under one or several `max`)"""
+    while s["k"] == "max":
+        s = s["s"]
+    return s["e"] if s["k"] == "acct" else None
+
+
+def portion_shares_verdicts(inp, out, stats=None):
+    """[(side, what)] — side "destination" / "source": the postings do not give each entry of the allotment its stated share.
+
+    Fragment: exactly one send in the script; its amount can be evaluated from the input (or it is `[A *]` without `kept`: then
+    what moved is the amount); every portion can be evaluated from the input alone (literal, portion variable of the request,
+    portion variable read from stored metadata, `remaining`).  Destination side: every entry is `to <account>` or `kept`.  Source
+    side: every entry draws from one account (plain / overdraft / under `max`) and nothing is `kept` further on."""
+    if "postings" not in out:
+        return []
+    sends = [s for s in inp["ast"]["stmts"] if s["k"] == "send"]
+    if len(sends) != 1:
+        return []
+    st = sends[0]
+    if st["dst"]["k"] != "allot" and st["src"]["k"] != "allot":
+        return []
+    env, bal, acct_of, asset_of = resolve_env(inp)
+    try:
+        if st["amt"]["k"] == "mon":
+            m = eval_mon(st["amt"]["e"], env, asset_of)
+            if not m or m[0] is None or m[1] < 0:
+                return []
+            asset, n = m
+        else:
+            asset, n = asset_of(st["amt"]["asset"]), None
+    except Exception:
+        return []
+    posts = [(p[0], p[1], int(p[2])) for p in out["postings"]]
+    if asset is None or any(p[3] != asset for p in out["postings"]) or any(p[2] < 0 for p in posts):
+        return []          # another asset moved / a negative posting: other clauses of C03 speak about those
+    if n is None:
+        if has_kept(st["dst"]):
+            return []
+        n = sum(p[2] for p in posts)
+
+    def value(p):
+        if p["k"] == "remaining":
+            return None, None
+        if p["k"] == "const":
+            return portion_from_text(p["t"]), ("literal", p["t"])
+        if p["k"] == "var":
+            v = env.get(p["v"])
+            if v and v[0] == "portion":
+                d = next((d for d in inp["ast"].get("vars") or [] if d["name"] == p["v"]), {})
+                return portion_from_text(v[1]), ("metadata" if d.get("origin") else "variable", v[1])
+        raise _Outside()
+
+    def shares_of(items):
+        vals = [value(i["p"]) for i in items]
+        if any(v is None and how is not None for v, how in vals):
+            raise _Outside()
+        r = expected_shares(n, [v for v, _ in vals])
+        if r is None:
+            raise _Outside()
+        return r[0], r[1], [how for _, how in vals if how]
+
+    def note(side, full, hows):
+        if stats is None:
+            return
+        stats["sends_evaluated"] += 1
+        stats["side_" + side] += 1
+        stats["amount_ge_2^62"] += 1 if n >= 2 ** 62 else 0
+        stats["amount_below_2^63_times_a_numerator_not"] += 1 if n < 2 ** 63 <= n * max(p.numerator for p in full) else 0
+        texts = [t for _, t in hows]
+        stats["fractional_percent"] += 1 if any("." in t for t in texts) else 0
+        stats["percent_with_a_zero_right_after_the_point"] += 1 if any(re.search(r"[.]0", t) and not re.fullmatch(r"[0-9]+[.]0+%", t) for t in texts) else 0
+        for k in sorted({h for h, _ in hows}):
+            stats["portion_from_" + k] += 1
+
+    def differs(want, got):
+        want = {a: v for a, v in want.items() if v}
+        got = {a: v for a, v in got.items() if v}
+        return None if want == got else "the statement gives %s, the postings give %s" % (
+            sorted(want.items()), sorted(got.items()))
+    v = []
+    dst, src = st["dst"], st["src"]
+    if dst["k"] == "allot":
+        try:
+            accts = []
+            for it in dst["items"]:
+                if it["kd"]["k"] == "kept":
+                    accts.append(None)
+                elif it["kd"]["d"]["k"] == "acct" and acct_of(it["kd"]["d"]["e"]) is not None:
+                    accts.append(acct_of(it["kd"]["d"]["e"]))
+                else:
+                    raise _Outside()
+            shares, full, hows = shares_of(dst["items"])
+            note("destination", full, hows)
+            want, got = collections.Counter(), collections.Counter()
+            for a, x in zip(accts, shares):
+                if a is not None:
+                    want[a] += x
+            for _, d, x in posts:
+                got[d] += x
+            w = differs(want, got)
+            if w:
+                v.append(("destination", "send of %d %s through the destination portions %s: %s" % (n, asset, [str(p) for p in full], w)))
+        except (_Outside, KeyError, TypeError):
+            pass
+    if src["k"] == "allot" and not has_kept(dst):
+        try:
+            accts = []
+            for it in src["items"]:
+                e = single_account(it["s"])
+                if e is None or acct_of(e) is None:
+                    raise _Outside()
+                accts.append(acct_of(e))
+            shares, full, hows = shares_of(src["items"])
+            note("source", full, hows)
+            want, got = collections.Counter(), collections.Counter()
+            for a, x in zip(accts, shares):
+                want[a] += x
+            for s_, _, x in posts:
+                got[s_] += x
+            w = differs(want, got)
+            if w:
+                v.append(("source", "send of %d %s from the source portions %s: %s" % (n, asset, [str(p) for p in full], w)))
+        except (_Outside, KeyError, TypeError):
+            pass
+    return v
 
 
 # ---- a violation must come with cases that show it again: when the case alone (fresh process) does not, something an
